@@ -740,7 +740,7 @@ Lemma lock_unlock_no_disk_effect sp st o :
 Proof.
   intros [->|[b ->]]; unfold step; simpl.
   - destruct (negb (created st) || wo st || locked st); reflexivity.
-  - destruct (negb (created st) || wo st || negb b || (locked st && wcached st)); simpl; [|reflexivity].
+  - destruct (negb (created st) || wo st || negb b); simpl; [|reflexivity].
     destruct (created st && negb (wo st)); reflexivity.
 Qed.
 
@@ -749,7 +749,7 @@ Lemma lock_unlock_writes_nothing sp st o ws :
 Proof.
   intros [->|[b ->]]; simpl; intros H.
   - destruct (negb (created st) || wo st || locked st); [discriminate|now inversion H].
-  - destruct (negb (created st) || wo st || negb b || (locked st && wcached st)); [discriminate|now inversion H].
+  - destruct (negb (created st) || wo st || negb b); [discriminate|now inversion H].
 Qed.
 
 (* ---- (c) watching-only ------------------------------------------------- *)
